@@ -904,16 +904,18 @@ func probeSub(t *rapid.T, format int, gid uint16) []byte {
 		f := &cmap.Format0{}
 		f.Data['A'] = byte(gid)
 		f.Data['B'] = 200
+		f.Data[0x80] = 201
 		return f.Encode(0)
 	case 4:
-		return cmap.Format4{'A': glyph.ID(gid), 'B': 200}.Encode(0)
+		return cmap.Format4{'A': glyph.ID(gid), 'B': 200, 0x80: 201}.Encode(0)
 	case 6:
 		var g [65536]uint16
 		g['A'] = gid
 		g['B'] = 200
+		g[0x80] = 201
 		return refcmap.EncodeFormat6(&g, 0, chooser{t})
 	default:
-		return cmap.Format12{'A': glyph.ID(gid), 'B': 200, 0x1F600: 3}.Encode(0)
+		return cmap.Format12{'A': glyph.ID(gid), 'B': 200, 0x80: 201, 0x1F600: 3}.Encode(0)
 	}
 }
 
@@ -984,6 +986,20 @@ func TestC09GetBest(t *testing.T) {
 					which = fmt.Sprint(bestOrder[g-1])
 				}
 				fail("GetBest chose %s ('A' -> %d), want %v ('A' -> %d)", which, g, bestOrder[first], first+1)
+			}
+			// every probe subtable maps code 0x80 to glyph 201.  Through a
+			// Unicode key that is U+0080; through the Macintosh key (1,0) the
+			// code is Mac Roman, where 0x80 is U+00C4 (and U+0080 is unmapped).
+			var at80, atC4 glyph.ID
+			if pn := guard.Try(func() { at80 = sub.Lookup(0x80); atC4 = sub.Lookup(0xC4) }); pn != nil {
+				fail("Lookup: %s", pn)
+			}
+			want80, wantC4 := glyph.ID(201), glyph.ID(0)
+			if bestOrder[first].PlatformID == 1 {
+				want80, wantC4 = 0, 201
+			}
+			if at80 != want80 || atC4 != wantC4 {
+				fail("the subtable GetBest returns for key %v maps U+0080 -> %d, U+00C4 -> %d; its code 0x80 -> glyph 201 means U+0080 -> %d, U+00C4 -> %d", bestOrder[first], at80, atC4, want80, wantC4)
 			}
 		}
 		labels := []string{fmt.Sprintf("best:%d", first)}
